@@ -389,6 +389,21 @@ def check_unet_stride(prog: Program, res: Result) -> None:
             e = astq.expand_at(fi.node, sts[0].value, sts[0]) if len(sts) == 1 else e
         txt = norm(e) if e is not None else ""
         ok = "self.enc" in txt or "stem_blocks" in txt or "stem_stride" in txt
+        # ... and when it is read off the encoder's stack, it is read off the WHOLE stack (a slice that starts after the stem
+        # measures the stride relative to the stem output, not to the image)
+        def _partial(it):   # a slice / index / islice / filter of the stack (list(...), tuple(...), [:] keep it whole)
+            for x in ast.walk(it):
+                if isinstance(x, ast.Subscript) and "encoder_stack" in norm(x.value):
+                    sl = x.slice
+                    if not (isinstance(sl, ast.Slice) and sl.lower is None and sl.upper is None and sl.step is None):
+                        return True
+                if isinstance(x, ast.Call) and norm(x.func).split(".")[-1] in ("islice", "filter") and "encoder_stack" in norm(x):
+                    return True
+            return False
+        part = [g for g in (ast.walk(e) if e is not None else []) if isinstance(g, ast.comprehension) and "encoder_stack" in norm(g.iter) and _partial(g.iter)]
+        res.ob(R, not part, fi.qualname, "the pooling strides of the whole encoder stack are multiplied",
+               f"the decoder's start stride is computed over `{short(part[0].iter, 50) if part else ''}`, a part of the encoder stack: blocks left out (the stem) still pool, so the "
+               "stride labels are too small and Model selects the wrong feature map for each head", f"{fi.module.relpath}:{c.lineno}")
         res.ob(R, ok, fi.qualname, "decoder start stride = total pooling of the encoder (stem included)",
                f"Decoder(current_stride=`{short(e, 70) if e is not None else '?'}`) does not depend on the encoder stack or the stem blocks: with a stem the decoder's stride labels "
                "are too small by the stem stride and Model selects the wrong feature map for each head", f"{fi.module.relpath}:{c.lineno}")
